@@ -33,7 +33,7 @@ var (
 		"By=spiffe://cluster.local/ns/istio-system/sa/gw;URI=spiffe://cluster.local/ns/a/sa/b",
 		`URI=spiffe://cluster.local/ns/b/sa/c;DNS=foo.example.com;Subject="CN=bar,O=x"`,
 		"URI=spiffe://x/ns/a/sa/b,URI=spiffe://y/ns/c/sa/d",
-		`Subject=""`, "garbage", `URI="spiffe://a,b"`, "Hash=abc", `Subject="O=only-org"`, "DNS=a.example.com;DNS=b.example.com", "Foo=bar", "",
+		"URI=SPIFFE://cluster.local/ns/a/sa/b", `Subject=""`, "garbage", `URI="spiffe://a,b"`, "Hash=abc", `Subject="O=only-org"`, "DNS=a.example.com;DNS=b.example.com", "Foo=bar", "",
 		`Subject="CN=with\,comma"`, "URI=;DNS=", `By=x;Hash=y;Cert="z";Chain="w";Subject="CN=n";URI=u;DNS=d`,
 	}
 	sanEntries = []string{"U:spiffe://cluster.local/ns/a/sa/b", "D:foo.example.com", "I:0a000001", "I:7f000001", "E:admin@example.com", "D:", "U:spiffe://x,y",
@@ -181,7 +181,7 @@ func genAuthSpec(r *wire.Rng, kind int, tr string, asciiOnly bool) []string {
 	default:
 		kind := "tls"
 		if r.Chance(1, 6) {
-			kind = wire.Pick(r, []string{"nopeer", "noauth", "other"})
+			kind = wire.Pick(r, []string{"nopeer", "noauth", "other", "tlspeer", "tlspeer"})
 		}
 		entries := sanEntries
 		if !asciiOnly {
@@ -238,7 +238,8 @@ func genAuthnLine(r *wire.Rng) []string {
 var (
 	tlsPools = [][]string{{"td1=R1", "td2=R2"}, {"td1=R1"}, {"td1=R1+R2"}, {"td1=R1", "td1=R3", "td2=R2"}, {"td2=R2", "cluster.local=R1+R3"}, {}}
 	tlsURIs  = []string{"spiffe://td1/ns/a/sa/b", "spiffe://td2/ns/a/sa/b", "spiffe://td1/ns/istio-system/sa/ztunnel", "spiffe://cluster.local/ns/a/sa/b",
-		"spiffe://td3/ns/a/sa/b", "spiffe://td1/x", "spiffe://td1/ns/a/sa/b/c", "https://td1/ns/a/sa/b", "spiffe://td1,td2/ns/a/sa/b"}
+		"spiffe://td3/ns/a/sa/b", "spiffe://td1/x", "spiffe://td1/ns/a/sa/b/c", "https://td1/ns/a/sa/b", "spiffe://td1,td2/ns/a/sa/b",
+		"SPIFFE://td1/ns/a/sa/b", "Spiffe://td2/ns/a/sa/b", "sPiFfE://td1/ns/istio-system/sa/ztunnel", "SPIFFE://td3/ns/a/sa/b", "SPIFFE://td1/x"}
 )
 
 // genTLSCert: a client certificate presented in a real TLS handshake (kind 4).
@@ -280,7 +281,8 @@ func genTLSCert(r *wire.Rng, tr string) []string {
 				l.issuer = "I2"
 			}
 		}
-		l.sans[0] = "U:spiffe://" + td + "/ns/" + wire.Pick(r, []string{"a", "istio-system"}) + "/sa/" + wire.Pick(r, []string{"b", "ztunnel"})
+		l.sans[0] = "U:" + wire.Pick(r, []string{"spiffe", "spiffe", "spiffe", "spiffe", "SPIFFE", "Spiffe"}) + "://" + td + "/ns/" +
+			wire.Pick(r, []string{"a", "istio-system"}) + "/sa/" + wire.Pick(r, []string{"b", "ztunnel"})
 	}
 	if r.Chance(1, 3) {
 		l.sans = append(l.sans, wire.Pick(r, []string{"D:foo.example.com", "D:istiod.istio-system.svc", "I:0a000001"}))
@@ -448,10 +450,13 @@ func credentialClause(f []string, caller *security.Caller, via string) string {
 		if f[4] == "-" || len(hs) == 0 {
 			return "xfcc-no-header"
 		}
-		for _, id := range ids {
-			if id != "" && !strings.Contains(strings.ReplaceAll(hs[0], `\,`, ","), id) {
-				return "xfcc-identity-not-from-header"
-			}
+		// exactly the URI, DNS and Subject-CN values of the first header value, element by element
+		want, ok := expectedFromCredential(f, "-")
+		if !ok && len(want.ids) == 0 && len(ids) == 0 {
+			break // a header without any name: a caller without identities, which the authentication manager discards
+		}
+		if !ok || strings.Join(want.ids, "\x00") != strings.Join(ids, "\x00") {
+			return "xfcc-identity-not-from-header"
 		}
 	case "tlscert":
 		want, ok := tlsCertExpected(f)
@@ -561,7 +566,12 @@ func tlsCertExpected(f []string) ([]string, bool) {
 	if len(uris) != 1 {
 		return nil, false
 	}
-	td, _, _, ok := spiffeParts(uris[0])
+	// the trust domain of a SPIFFE URI; its scheme is case-insensitive
+	norm := uris[0]
+	if i := strings.Index(norm, ":"); i > 0 {
+		norm = strings.ToLower(norm[:i]) + norm[i:]
+	}
+	td, _, _, ok := spiffeParts(norm)
 	if !ok {
 		return nil, false
 	}
